@@ -498,7 +498,7 @@ def run(ctx):
                     reach.append(r.cat)
     ctx.stats['reachable_new_categories'] = len(reach)
     rc = inv + reach
-    nreach = 15000 if quick else 400000
+    nreach = 15000 if quick else 150000
     rp = []
     for _ in range(nreach):
         i, j = len(inv) + rng.randrange(len(reach)), rng.randrange(len(rc))
@@ -507,7 +507,7 @@ def run(ctx):
     for (i, j), (o, probs) in zip(rp, resr):
         record(rc[i], rc[j], o, probs, 'reachable')
     firer = [k for k, (o, _) in enumerate(resr) if o[0] != 'ok' or o[1]]
-    selr = rng.sample(firer, min(len(firer), 500 if quick else 30000)) + rng.sample(range(len(rp)), 100 if quick else 5000)
+    selr = rng.sample(firer, min(len(firer), 500 if quick else 12000)) + rng.sample(range(len(rp)), 100 if quick else 3000)
     pool = Pool()
     pos = used_table(pool, rc, [rp[k] for k in selr])
     cases = [bin_case(pool, f'(g_tbl {pos[rp[k][0]]})', f'(g_tbl {pos[rp[k][1]]})', resr[k][0]) for k in selr]
@@ -523,7 +523,7 @@ def run(ctx):
                 sidx[str(c)] = len(scats)
                 scats.append(c)
     listed = [(sidx[str(a)], sidx[str(b)]) for a, b in seen_pairs]
-    nrand = 10000 if quick else 400000
+    nrand = 10000 if quick else 200000
     randp = [(rng.randrange(len(scats)), rng.randrange(len(scats))) for _ in range(nrand)]
     sp = listed + randp
     res2 = run_pairs(scats, sp)
@@ -533,13 +533,13 @@ def run(ctx):
     ctx.stats['seen_rule_categories'] = len(scats)
     ctx.stats['seen_rule_pairs_listed_firing'] = sum(1 for k in range(len(listed)) if res2[k][0][1])
     sel2 = (rng.sample(range(len(listed)), 700) + rng.sample(fire2, min(len(fire2), 300)) + rng.sample(range(len(listed), len(sp)), 200)) if quick \
-        else (list(range(len(listed))) + fire2 + rng.sample(range(len(listed), len(sp)), 20000))
+        else (list(range(len(listed))) + fire2 + rng.sample(range(len(listed), len(sp)), 8000))
     pool = Pool()
     pool.table(scats)
     cases = [bin_case(pool, f'(g_tbl {sp[k][0]})', f'(g_tbl {sp[k][1]})', res2[k][0]) for k in sel2]
     # the seen-rule gate: small seen sets that do / do not contain the raw pair
     gate_descr = []
-    for _ in range(150 if quick else 2000):
+    for _ in range(150 if quick else 1500):
         k = rng.randrange(len(listed))
         i, j = sp[k]
         others = [listed[rng.randrange(len(listed))] for _ in range(rng.randint(0, 3))]
@@ -568,7 +568,7 @@ def run(ctx):
         by_skel[skel(c)].append(k)
     funs = [k for k, c in enumerate(syn) if is_fun(c)]
     pairs3 = []
-    n3 = 20000 if quick else 600000
+    n3 = 20000 if quick else 300000
     for _ in range(n3):
         u = rng.random()
         if u < 0.3:
@@ -585,14 +585,14 @@ def run(ctx):
     fire3 = [k for k in range(len(pairs3)) if res3[k][0][0] != 'ok' or res3[k][0][1]]
     ctx.stats['synthetic_categories'] = len(syn)
     ctx.stats['synthetic_firing_pairs'] = len(fire3)
-    sel3 = rng.sample(fire3, min(len(fire3), 900 if quick else 40000)) + rng.sample(range(len(pairs3)), 300 if quick else 10000)
+    sel3 = rng.sample(fire3, min(len(fire3), 900 if quick else 20000)) + rng.sample(range(len(pairs3)), 300 if quick else 5000)
     pool = Pool()
     cases3 = [bin_case(pool, pool.cat(syn[pairs3[k][0]]), pool.cat(syn[pairs3[k][1]]), res3[k][0]) for k in sel3]
     descr3 = [(str(syn[pairs3[k][0]]), str(syn[pairs3[k][1]])) for k in sel3]
 
     # ---- 4. instances of every pattern pair, modifier and NON-modifier, deeper sub-categories, outer slashes that differ ----
     inst_cats, inst_pairs = [], []
-    n4 = (220 if quick else 6000)
+    n4 = (220 if quick else 3000)
     for sym in PATTERNS:
         for t in range(n4):
             x, y = instantiate(rng, sym, modifier=(t % 8 == 0))
